@@ -33,6 +33,7 @@ THEMES = {
     "path": (4, 2, 3),
     "mode": (4, 3, 4),
     "app": (5, 4, 5),
+    "lim": (6, 3, 4),
     "pipe": (5, 4, 5),
     "sig": (3, 4, 5),
 }
@@ -448,7 +449,7 @@ def run(tier):
     rc = rep.finish()
     ops_all = ["open", "close", "dup", "dup2", "pipe", "tmp", "read", "write", "lseek", "getfd", "setfd", "access",
                "setnb", "fstat", "statat", "umask", "chdir", "getcwd", "opendir", "sigaction", "getsigaction",
-               "sigmask", "kill", "caught"]
+               "sigmask", "kill", "caught", "setrlimit", "getrlimit"]
     vlib.write_evidence(PID, tier, {
         "states": cov["states"],
         "transitions": cov["transitions"],
